@@ -201,6 +201,7 @@ dLUMemInit(fact_t fact, void *work, int_t lwork, int m, int n, int_t annz,
     double   *ucol;
     int_t    *usub, *xusub;
     int_t    nzlmax, nzumax, nzlumax;
+    int_t    top1_mark = 0, used_mark = 0;
     
     iword     = sizeof(int);
     dword     = sizeof(double);
@@ -244,6 +245,12 @@ dLUMemInit(fact_t fact, void *work, int_t lwork, int m, int n, int_t annz,
 	    xusub  = duser_malloc((n+1) * iword, HEAD, Glu);
 	}
 
+	if ( Glu->MemModel == USER ) {
+	    /* Remember the stack before the four requests, so that a failed
+	       round can give back exactly what it obtained. */
+	    top1_mark = Glu->stack.top1;
+	    used_mark = Glu->stack.used;
+	}
 	lusup = (double *) dexpand( &nzlumax, LUSUP, 0, 0, Glu );
 	ucol  = (double *) dexpand( &nzumax, UCOL, 0, 0, Glu );
 	lsub  = (int_t *) dexpand( &nzlmax, LSUB, 0, 0, Glu );
@@ -256,8 +263,11 @@ dLUMemInit(fact_t fact, void *work, int_t lwork, int m, int n, int_t annz,
 		SUPERLU_FREE(lsub); 
 		SUPERLU_FREE(usub);
 	    } else {
-		duser_free((nzlumax+nzumax)*dword+(nzlmax+nzumax)*iword,
-                            HEAD, Glu);
+		/* Some of the four requests may have failed, and the granted ones
+		   may include an alignment pad: restore the stack instead of
+		   releasing the sum of the requested sizes. */
+		Glu->stack.top1 = top1_mark;
+		Glu->stack.used = used_mark;
 	    }
 	    nzlumax /= 2;
 	    nzumax /= 2;
